@@ -36,13 +36,13 @@ CHECKS = {
   note="A later segment that starts a valid handshake record (second ClientHello) is outside the judged domain; worker-pool path is covered by C10.",
   design="6 C08"),
  "C16": dict(
-  technique="runtime oracle: generator-as-reference (full HPACK encoder + HTTP/2 framer, h2gen.rs) vs the decoded request/response; deviation models for three known findings",
-  text="Exploration: ~4.4e5 (quick) / ~9e6 (thorough) encoded header lists: pseudo-header orders, 0..60 fields, cookie crumbs, every representation (indexed, three literal forms, name references, Huffman per string, dynamic references, size updates, non-minimal integers) x framings (plain, PADDED, PRIORITY, CONTINUATION at every byte for short blocks, unfinished) x control frames before and other frames after; method/path/authority/scheme/status, ordered headers, cookies, referer, user agent, language and signature parts must equal the encoded list. Held = only the three listed known-finding deviations observed.",
+  technique="runtime oracle: generator-as-reference (full HPACK encoder + HTTP/2 framer, h2gen.rs) vs the decoded request/response; deviation model for one known finding (a static-table defect of the HPACK dependency)",
+  text="Exploration: ~4.4e5 (quick) / ~9e6 (thorough) encoded header lists: pseudo-header orders, 0..60 fields, cookie crumbs, every representation (indexed, three literal forms, name references, Huffman per string, dynamic references, size updates, non-minimal integers) x framings (plain, PADDED, PRIORITY, CONTINUATION at every byte for short blocks, unfinished) x control frames before and other frames after; method/path/authority/scheme/status, ordered headers, cookies, referer, user agent, language and signature parts must equal the encoded list. Held = only the listed known-finding deviation (static table entry 15 of hpack-patched) observed.",
   note="Encoder self-checked against RFC 7541 Appendix C; optional-mark/value-elision treatment of lower-case names is unjudged.",
   design="6 C16"),
  "C17": dict(
-  technique="runtime oracle: independent Akamai S|WU|P|PS reference over generated frame sequences + history check of the incremental extractor over all chunkings; deviation models for three known findings",
-  text="Exploration: ~2e6 (quick) / ~7e7 (thorough) judged fingerprints: SETTINGS with known/unknown/duplicate ids, reserved bits, WINDOW_UPDATE variants, PRIORITY frames with exclusive bit and all weights, HEADERS with every pseudo-header order and flag combination, with/without preface, one-shot from bytes and from frames, and incrementally under one chunk, every 2-cut, byte-by-byte, frame-by-frame and random k-cuts (Some exactly once on the chunk completing the first SETTINGS, equal to the one-shot fingerprint so far). Held = only the three listed known-finding deviations observed.",
+  technique="runtime oracle: independent Akamai S|WU|P|PS reference over generated frame sequences + history check of the incremental extractor over all chunkings",
+  text="Exploration: ~2e6 (quick) / ~7e7 (thorough) judged fingerprints: SETTINGS with known/unknown/duplicate ids, reserved bits, WINDOW_UPDATE variants, PRIORITY frames with exclusive bit and all weights, HEADERS with every pseudo-header order and flag combination, with/without preface, one-shot from bytes and from frames, and incrementally under one chunk, every 2-cut, byte-by-byte, frame-by-frame and random k-cuts (Some exactly once on the chunk completing the first SETTINGS, equal to the one-shot fingerprint so far). Held = no difference.",
   note="Reference checked against the published Chrome/Firefox strings; empty or malformed first SETTINGS run crash-only.",
   design="6 C17"),
  "C02": dict(
